@@ -34,7 +34,12 @@ EXPLANATION = (
     'calls bound by signature) and report only on positive evidence or in a closed world. '
     'R2d also requires that beyond their common tail install_path and install_path_name differ only in their roots, and that a literal `{name}` root '
     'names the directory option the real root was read from (producers and OptionString(real, name) sites). '
-    'Does NOT decide: equality of the two generated artefacts for a concrete project (run-time values); agreement of two *opaque* roots '
+    'R6 every interpreter method of a compiler object that declares a File positional argument and hands it to a configure-time compiler check records the '
+    'object the user passed with add_build_def_file on every returning path (files created at setup time excepted, which the recorder ignores); R7 the '
+    'configure_file depfile chain: rules naming the same target are merged (an entry is only created for a target not seen before) and every dependency '
+    'returned for the output is recorded. '
+    'Does NOT decide: whether the depfile tokenizer (depfile.parse) and the transitive closure of get_all_dependencies return the right names; other readers of '
+    'user files (fs.read, keyval, cmake, qt) beyond what R5 says about the recorder; equality of the two generated artefacts for a concrete project (run-time values); agreement of two *opaque* roots '
     '(install_dir vs install_dir_name objects) or a directory joined on one side in front of the common tail; uniqueness of the source-path keys of '
     'intro-install_plan/intro-installed (several install_data() of one file collapse - documented format); whether two path expressions name the same '
     'file (fs.read registering a relative name); value semantics of join_paths (install_dir_name text); env.unset() as seen by mtest; build files of a '
@@ -2636,6 +2641,242 @@ def r2f(ctx: RuleCtx) -> None:
     ctx.floor('install_dir_names implementations', n, 2)
 
 
+# ---------------------------------------------------------------------------
+# R6 a user file handed to a configure-time compiler check is recorded as a build definition file (K8 siblings, seed6/3 family)
+
+COMPILER_HOLDER = 'mesonbuild/interpreter/compiler.py'
+DEPFILE = 'mesonbuild/depfile.py'
+
+
+def _file_typed_positions(fn: FuncNode) -> T.Set[int]:
+    """Indices of the fixed positional arguments that `typed_pos_args` declares to accept a File object."""
+    out: T.Set[int] = set()
+    for d in fn.decorator_list:
+        if isinstance(d, ast.Call) and (attr_chain(d.func) or '').split('.')[-1] == 'typed_pos_args':
+            for i, a in enumerate(d.args[1:]):
+                ts = a.elts if isinstance(a, ast.Tuple) else [a]
+                if any((attr_chain(t) or '').split('.')[-1] == 'File' for t in ts):
+                    out.add(i)
+    return out
+
+
+def _is_file_atom(e: ast.AST, val: bool, v: str, loc: Locals) -> T.Optional[bool]:
+    """Truth of `v is a File` that the condition `e` observed as `val` establishes (None: says nothing about it)."""
+    from ..tables import canon
+    for _ in range(3):
+        while isinstance(e, ast.UnaryOp) and isinstance(e.op, ast.Not):
+            e, val = e.operand, not val
+        if isinstance(e, ast.Name) and e.id not in params(loc.fn):
+            ds = loc.defs.get(e.id, [])
+            if len(ds) == 1 and ds[0] is not None:
+                e = ds[0]          # a condition named as a local first
+                continue
+        break
+    try:
+        a, pol = canon(e, val)
+    except Undecided:
+        return None
+    if a.kind == 'isinstance' and a.args[0] == v:
+        kinds = {t.split('.')[-1] for t in a.args[1]}
+        if kinds == {'File'}:
+            return pol
+        if kinds == {'str'}:
+            return not pol         # the declared type is (str, File)
+        raise Undecided(f'{loc.fn.name}: type test on the file operand outside the understood idioms: {short(e)}')
+    return None
+
+
+def r6(ctx: RuleCtx) -> None:
+    cmod = ctx.repo.module(COMPILER_HOLDER)
+    n_methods = n_paths = 0
+    # does the recorder itself ignore a File created at setup time (`is_built`)?  Then a path that skips the call for such a file loses nothing.
+    imod = ctx.repo.module(INTERP)
+    rec = normal_func(imod, 'Interpreter.add_build_def_file')
+    rp0 = param(rec, 0, 'Interpreter.add_build_def_file')
+    rloc = Locals(rec)
+    built_ignored = False
+    for pth in enumerate_paths(rec.body, handlers=True):
+        stores = any(recv(c) == 'self.build_def_files' for ev in pth.events if ev.kind == 'stmt' and ev.node is not None for c in walk_no_nested(ev.node) if isinstance(c, ast.Call))
+        cm = pth.cond_map()
+        if not stores and cm.get(f'{rp0}.is_built') is True and any(_is_file_atom(ev.node, bool(ev.val), rp0, rloc) for ev in pth.events if ev.kind == 'cond' and ev.node is not None):
+            built_ignored = True
+    for cname in sorted(cmod.classes()):
+        for mname, raw in sorted(cmod.methods(cname).items()):
+            idx = _file_typed_positions(raw)
+            if not idx:
+                continue
+            qn = f'{cname}.{mname}'
+            fn = normal_func(cmod, qn, fn=raw)
+            loc = Locals(fn)
+            pa = param(fn, 0, qn)
+            # the local(s) bound to a File-typed positional argument
+            vs = sorted({nm for nm, ds in loc.defs.items() for d in ds if isinstance(d, ast.Subscript) and isinstance(d.value, ast.Name) and d.value.id == pa
+                         and isinstance(d.slice, ast.Constant) and d.slice.value in idx})
+            fl = Flow(fn)
+            checks = [c for c in ast.walk(fn) if isinstance(c, ast.Call) and (recv(c) or '').split('.')[:2] == ['self', 'compiler']
+                      and any(f'param:{pa}' in fl.origins(a) for a in c.args)]
+            if not checks:
+                continue          # the file is not read by a configure-time compiler check here
+            if len(vs) != 1:
+                raise Undecided(f'{qn}: cannot find the local bound to the File-typed positional argument ({vs})')
+            v = vs[0]
+            n_methods += 1
+            bad: T.Dict[str, T.Tuple[str, ast.AST]] = {}
+            for pth in enumerate_paths(fn.body):
+                if pth.outcome != 'return':
+                    continue          # a failing check aborts the configuration: nothing is written
+                live: T.Set[str] = set()          # the locals that hold the object the user passed, at this point of the path (copy tracking)
+                recorded = late = built = False
+                is_file: T.Optional[bool] = None
+                checked: T.Optional[ast.Call] = None
+                escapes: T.List[ast.Call] = []
+                for ev in pth.events:
+                    if ev.node is None:
+                        continue
+                    if ev.kind == 'cond':
+                        for nm in sorted(live):
+                            if is_file is None:
+                                is_file = _is_file_atom(ev.node, bool(ev.val), nm, loc)
+                            if norm(ev.node) == f'{nm}.is_built' and ev.val:
+                                built = True
+                    roots = [ev.node] if ev.kind != 'stmt' or not isinstance(ev.node, (ast.If, ast.For, ast.While, ast.With, ast.Try)) else []
+                    for r_ in roots:
+                        for c in walk_no_nested(r_):
+                            if not isinstance(c, ast.Call):
+                                continue
+                            operands = [a for a in list(c.args) + [k.value for k in c.keywords] if isinstance(a, ast.Name)]
+                            direct = [a for a in operands if a.id in live]
+                            if call_method(c) == 'add_build_def_file':
+                                if direct:
+                                    recorded = True
+                                elif any(f'param:{pa}' in fl.origins(a) for a in c.args):
+                                    late = True
+                            elif any(c is k for k in checks):
+                                checked = checked or c
+                            elif direct and call_name(c) != 'isinstance' and (recv(c) or '').split('.')[0] != 'mlog':
+                                escapes.append(c)
+                    if ev.kind == 'stmt' and isinstance(ev.node, (ast.Assign, ast.AnnAssign, ast.AugAssign)):
+                        tg = ev.node.targets if isinstance(ev.node, ast.Assign) else [ev.node.target]
+                        val_ = getattr(ev.node, 'value', None)
+                        src_ = isinstance(val_, ast.Subscript) and isinstance(val_.value, ast.Name) and val_.value.id == pa and isinstance(val_.slice, ast.Constant) \
+                            and val_.slice.value in idx
+                        copy_ = isinstance(val_, ast.Name) and val_.id in live
+                        for t in tg:
+                            if isinstance(t, ast.Name) and not isinstance(ev.node, ast.AugAssign) and (src_ or copy_):
+                                live.add(t.id)
+                            else:
+                                for x in ast.walk(t):
+                                    if isinstance(x, ast.Name):
+                                        live.discard(x.id)
+                if checked is None:
+                    continue
+                n_paths += 1
+                if recorded or is_file is False:
+                    continue
+                if built_ignored and built:
+                    continue          # a file created at setup time: the recorder ignores it anyway
+                if late:
+                    raise Undecided(f'{qn}: the file operand is recorded only after `{v}` was rebound; cannot tell whether the derived object names the same file')
+                if escapes:
+                    raise Undecided(f'{qn}: the file operand is handed to `{short(escapes[0])}` before the check; cannot tell whether that records it')
+                what = ' & '.join(('' if val else 'not ') + t for t, val in pth.conds() if 'isinstance' in t or 'is_built' in t)[:200] or 'no test on the operand'
+                bad.setdefault(f'self.compiler.{call_method(checked)}', (what, checked))
+            for callee, (what, node) in sorted(bad.items()):
+                ctx.violation(cmod, qn, f'file operand of {callee}: recorded before the check', f'{qn} accepts a File (typed_pos_args) and hands it to {callee}() on the path [{what}] '
+                              f'without self.interpreter.add_build_def_file(<the file>): a source file read by the check at configure time is missing from '
+                              'intro-buildsystem_files.json and from the regeneration dependencies of build.ninja (editing it does not reconfigure)', node)
+            if not bad:
+                ctx.ok(f'{qn}: every returning path that hands a File operand to a compiler check records it as a build definition file')
+    ctx.floor('compiler check methods that accept a File', n_methods, 3)
+    ctx.floor('returning paths through a compiler check', n_paths, 3)
+
+
+# ---------------------------------------------------------------------------
+# R7 configure_file(depfile:): every dependency of every rule for the output is recorded (seed6/1 family)
+
+def r7(ctx: RuleCtx) -> None:
+    # (a) the consumer: every element of DepFile(...).get_all_dependencies(...) goes to add_build_def_file
+    imod = ctx.repo.module(INTERP)
+    n_cons = 0
+    for qn, raw in sorted(imod.funcs().items()):
+        if not any(isinstance(c, ast.Call) and (call_name(c) or '').split('.')[-1] == 'DepFile' for c in ast.walk(raw)):
+            continue
+        fn = normal_func(imod, qn, fn=raw, inline=0)
+        loc = Locals(fn)
+        dfs = {nm for nm, ds in loc.defs.items() if any(isinstance(d, ast.Call) and (call_name(d) or '').split('.')[-1] == 'DepFile' for d in ds if d is not None)}
+        gets = [c for c in ast.walk(fn) if isinstance(c, ast.Call) and call_method(c) == 'get_all_dependencies'
+                and (recv(c) in dfs or (isinstance(c.func, ast.Attribute) and isinstance(c.func.value, ast.Call) and (call_name(c.func.value) or '').split('.')[-1] == 'DepFile'))]
+        if not gets:
+            raise Undecided(f'{qn}: a DepFile is built but get_all_dependencies() is not called on it in an understood way')
+        for g in gets:
+            names = {nm for nm, ds in loc.defs.items() if any(d is g for d in ds)}
+            loops = [l for l in ast.walk(fn) if isinstance(l, ast.For) and isinstance(l.target, ast.Name)
+                     and (l.iter is g or (isinstance(l.iter, ast.Name) and l.iter.id in names))]
+            if len(loops) != 1:
+                raise Undecided(f'{qn}: the dependencies read from the depfile are not consumed by one plain for loop')
+            lv = loops[0].target.id
+            n_cons += 1
+            bad = None
+            for pth in enumerate_paths(loops[0].body):
+                if pth.outcome == 'raise':
+                    continue
+                if not any(call_method(c) == 'add_build_def_file' and any(isinstance(a, ast.Name) and a.id == lv for a in c.args) for c in pth.calls()):
+                    bad = pth
+            ctx.require(bad is None, f'{qn}: every dependency listed in the depfile for the output is passed to add_build_def_file', imod, qn, 'depfile dependencies: each recorded',
+                        f'{qn} skips dependencies of the configure_file depfile on the path [{bad.describe() if bad else ""}]: a file the command read is missing from '
+                        'intro-buildsystem_files.json and from the regeneration dependencies', loops[0])
+    ctx.floor('consumers of a configure_file depfile', n_cons, 1)
+    # (b) the table behind get_all_dependencies: rules that name the same target are merged, never overwritten
+    dmod = ctx.repo.module(DEPFILE)
+    qn = 'DepFile.__init__'
+    fn = normal_func(dmod, qn)
+    loc = Locals(fn)
+    pm = parents(fn)
+    tabs = {st.value.id for st in ast.walk(fn) if isinstance(st, (ast.Assign, ast.AnnAssign)) and isinstance(getattr(st, 'value', None), ast.Name)
+            and attr_chain(st.targets[0] if isinstance(st, ast.Assign) else st.target) == 'self.depfile'}
+    if len(tabs) != 1:
+        raise Undecided(f'{qn}: the local that becomes self.depfile not found ({sorted(tabs)})')
+    tab = next(iter(tabs))
+    n_w = 0
+    merged = False
+    for st in ast.walk(fn):
+        in_loop = any(isinstance(x, (ast.For, ast.While)) for x in _enclosing(pm, st))
+        subs = [t for t in st.targets if isinstance(t, ast.Subscript) and isinstance(t.value, ast.Name) and t.value.id == tab] if isinstance(st, ast.Assign) else []
+        if subs and in_loop:
+            n_w += 1
+            key = norm(subs[0].slice)
+            reads_old = any(isinstance(x, ast.Name) and x.id == tab for x in ast.walk(st.value))
+            guarded = False
+            cur: ast.AST = st
+            for par in _enclosing(pm, st):
+                if isinstance(par, ast.If):
+                    t, neg = par.test, cur in par.orelse
+                    while isinstance(t, ast.UnaryOp) and isinstance(t.op, ast.Not):
+                        t, neg = t.operand, not neg
+                    if isinstance(t, ast.Compare) and len(t.ops) == 1 and isinstance(t.ops[0], (ast.In, ast.NotIn)) and norm(t.left) == key and norm(t.comparators[0]) == tab:
+                        absent = isinstance(t.ops[0], ast.NotIn) != neg
+                        guarded = guarded or absent
+                cur = par
+            if reads_old and not guarded:
+                raise Undecided(f'{qn}: `{short(st)}` rebuilds the entry from the previous one; merge not followed')
+            ctx.require(guarded, f'{qn}: `{short(st, 60)}` only creates the entry of a target seen for the first time', dmod, qn, 'per-target entry: created once, then extended',
+                        f'{qn} assigns a fresh entry to {tab}[{key}] for every rule: a depfile that names the output in several rules (`out: a` / `out: b`) keeps only the '
+                        'dependencies of the last one, so files the configure_file command read are missing from intro-buildsystem_files.json and the regeneration rule', st)
+        elif isinstance(st, ast.Call) and call_method(st) in ('setdefault',) and recv(st) == tab and in_loop:
+            n_w += 1
+            ctx.ok(f'{qn}: `{short(st, 60)}` keeps the entry of a target that was seen before')
+        elif isinstance(st, ast.Call) and recv(st) == tab and call_method(st) in ('update', 'pop', 'clear', 'popitem', '__setitem__'):
+            raise Undecided(f'{qn}: `{short(st)}` writes the table in a way this rule does not follow')
+        if isinstance(st, ast.Call) and call_method(st) in ('add', 'update') and isinstance(st.func, ast.Attribute) and isinstance(st.func.value, ast.Attribute) \
+                and st.func.value.attr == 'deps':
+            merged = True
+        if isinstance(st, ast.AugAssign) and isinstance(st.op, ast.BitOr) and isinstance(st.target, ast.Attribute) and st.target.attr == 'deps':
+            merged = True
+    if not merged and not any(f.function == qn and f.rule == 'C15.R7' for f in ctx.findings):
+        raise Undecided(f'{qn}: no in-place extension of a `.deps` set found; the way rules are merged is not understood')
+    ctx.floor('writes to the per-target table of the depfile', n_w, 1)
+
+
 RULES = [
     Rule('C15.R1a', 'tests/benchmarks: the pickled serialisation is the introspected one', r1a),
     Rule('C15.R1b', 'install plan/installed/targets: install.dat and the JSON share create_install_data()', r1b),
@@ -2653,6 +2894,8 @@ RULES = [
     Rule('C15.R2f', 'install_dir_names() is index-aligned with install_dir (they are zipped positionally)', r2f),
     Rule('C15.R3', 'mintro and backend agree on the target output directory', r3),
     Rule('C15.R5', 'add_build_def_file rules out the build dir before testing the source dir on every recording path', r5),
+    Rule('C15.R6', 'a File handed to a configure-time compiler check is recorded as a build definition file on every returning path', r6),
+    Rule('C15.R7', 'configure_file depfile: rules naming the same target are merged and every dependency is recorded', r7),
     Rule('C15.R4', 'introspection generated only after backend.generate, same build/backend', r4),
 ]
 _ = (Flow, call_name, walk_no_nested, method_calls, const_strs, attrs_of, intro_table, BACKENDS, MTEST, MINSTALL, INTERP, IDEDOC)
